@@ -737,6 +737,17 @@ NextPin:
 		edge.Down = nodeID
 		edge.Type = nodeType
 
+		// existing child edges must be added to the hash
+		childEdges, err := sdb.edges(tx, "SELECT * FROM edges WHERE up=?", nodeID)
+		if err != nil {
+			rollback()
+			return err
+		}
+
+		for _, ce := range childEdges {
+			hashUpdate ^= ce.Hash
+		}
+
 		// look for existing node points that must be added to the hash
 		rowsPoints, err := tx.Query("SELECT * FROM node_points WHERE node_id=?", nodeID)
 		if err != nil {
